@@ -58,6 +58,20 @@ func ExamplePrograms() []Program {
 	return out
 }
 
+// QuickProgram selects the cheap examples (about 1-2 s CPU each for build,
+// assembly, engine compilation and the reference run) for quick tiers.
+func QuickProgram(name string) bool {
+	if strings.HasPrefix(name, "misc/") {
+		return true
+	}
+	switch name {
+	case "copy.wa", "eq.wa", "struct.wa", "strbytes.wa", "short-var.wa", "interface_named.wa",
+		"runtime_print/main.wa", "docker-wasm/hello.wa", "native-wa-01/hello.wa":
+		return true
+	}
+	return false
+}
+
 func wi(v int64) string { return fmt.Sprintf("%d", v) }
 
 // TemplateProgram draws one small hand-templated program (constants, sizes
